@@ -525,6 +525,7 @@ def special_models():
         go.output.append(_vi("y", TP.FLOAT, (2,)))
         out.append((f"overridable_initializer_and_identical_constant[{order[0]}_first]", helper.make_model(go, opset_imports=[helper.make_opsetid("", OPSET)], ir_version=10)))
     out.extend(corner_models())
+    out.extend(annotated_optional_output_models())
     g2 = onnx.GraphProto(name="main")
     g2.input.extend([_vi("x"), _vi("c", TP.BOOL, ())])
     g2.node.append(helper.make_node("Identity", ["x"], ["y"], name="id"))
@@ -536,6 +537,37 @@ def special_models():
 
 def _model(g, fns=(), extra_opsets=()):
     return helper.make_model(g, opset_imports=[helper.make_opsetid("", OPSET)] + list(extra_opsets), ir_version=10, functions=list(fns))
+
+
+def annotated_optional_output_models():
+    """IR 11 models in which an optional output that nothing uses carries a sharding annotation (C14: a pass must
+    keep the model serialisable)."""
+    out = []
+    for op, label in (("BatchNormalization", "bn"), ("LayerNormalization", "ln")):
+        g = onnx.GraphProto(name="main")
+        g.input.extend([helper.make_tensor_value_info("x", TP.FLOAT, [1, 2, 1] if op == "BatchNormalization" else [1, 2]), _vi("c", TP.BOOL, ())])
+        if op == "BatchNormalization":
+            for nm, vals in (("scale", [1.0, 2.0]), ("bias", [0.0, 1.0]), ("mean", [0.5, -0.5]), ("var", [1.0, 4.0])):
+                g.initializer.append(_const_tensor(nm, vals))
+            n = helper.make_node(op, ["x", "scale", "bias", "mean", "var"], ["y", "o1", "o2"], name="norm", training_mode=1)
+        else:
+            g.initializer.append(_const_tensor("ln_scale", [1.0, 2.0]))
+            n = helper.make_node(op, ["x", "ln_scale"], ["y", "o1", "o2"], name="norm")
+        dc = n.device_configurations.add()
+        dc.configuration_id = "mesh"
+        sp = dc.sharding_spec.add()
+        sp.tensor_name = "o1"
+        sd = sp.sharded_dim.add()
+        sd.axis = 0
+        ss = sd.simple_sharding.add()
+        ss.num_shards = 2
+        g.node.append(n)
+        g.output.append(helper.make_tensor_value_info("y", TP.FLOAT, [1, 2, 1] if op == "BatchNormalization" else [1, 2]))
+        m = helper.make_model(g, opset_imports=[helper.make_opsetid("", OPSET)], ir_version=11)
+        c = m.configuration.add()
+        c.name, c.num_devices = "mesh", 2
+        out.append((f"unused_optional_output_is_sharded[{label}]", m))
+    return out
 
 
 def corner_models():
